@@ -189,6 +189,55 @@ pub fn run() {
                     let g = kk.get_current_key_guid().await.unwrap_or(None).unwrap_or("none".into());
                     g
                 }
+                ["prov", "call", what, rest @ ..] => {
+                    let ct = shared_state.get_cancellation_token();
+                    let tl = shared_state.get_telemetry_shared_state();
+                    let pv = shared_state.get_provision_shared_state();
+                    match (*what, rest) {
+                        ("ready", ["r"]) => crate::provision::redirector_ready(ct, kk.clone(), tl, pv, st.clone()).await,
+                        ("ready", ["k"]) => crate::provision::key_latched(ct, kk.clone(), tl, pv, st.clone()).await,
+                        ("ready", ["l"]) => crate::provision::listener_started(ct, kk.clone(), tl, pv, st.clone()).await,
+                        ("reset", _) => crate::provision::key_latch_ready_state_reset(pv).await,
+                        ("timeup", _) => crate::provision::provision_timeup(None, pv, st.clone()).await,
+                        _ => {}
+                    }
+                    "ok".into()
+                }
+                ["prov", "msg", what, rest @ ..] => {
+                    use crate::provision::ProvisionFlags;
+                    let pv = shared_state.get_provision_shared_state();
+                    let flag = |s: &str| match s {
+                        "r" => ProvisionFlags::REDIRECTOR_READY,
+                        "k" => ProvisionFlags::KEY_LATCH_READY,
+                        _ => ProvisionFlags::LISTENER_READY,
+                    };
+                    let show = |f: ProvisionFlags| {
+                        format!(
+                            "{}{}{}.",
+                            if f.contains(ProvisionFlags::REDIRECTOR_READY) { "r" } else { "" },
+                            if f.contains(ProvisionFlags::KEY_LATCH_READY) { "k" } else { "" },
+                            if f.contains(ProvisionFlags::LISTENER_READY) { "l" } else { "" }
+                        )
+                    };
+                    match (*what, rest) {
+                        ("update", [f]) => pv.update_one_state(flag(f)).await.map(show).unwrap_or("err".into()),
+                        ("reset", [f]) => pv.reset_one_state(flag(f)).await.map(show).unwrap_or("err".into()),
+                        ("getstate", _) => pv.get_state().await.map(show).unwrap_or("err".into()),
+                        ("setfin", [b]) => pv.set_provision_finished(*b == "1").await.map(|t| t.to_string()).unwrap_or("err".into()),
+                        ("getfin", _) => pv.get_provision_finished().await.map(|t| t.to_string()).unwrap_or("err".into()),
+                        _ => "bad-op".into(),
+                    }
+                }
+                ["prov", "trace"] => {
+                    let tr = crate::shared_state::verif_actor::take_trace();
+                    let v: Vec<String> = tr.iter().filter(|(a, _)| *a == "provision").map(|(_, k)| k.to_string()).collect();
+                    if v.is_empty() { "-".into() } else { v.join(",") }
+                }
+                ["chan", state] => {
+                    let _ = kk.update_current_secure_channel_state(unhex_str(state)).await;
+                    "ok".into()
+                }
+                ["now"] => proxy_agent_shared::misc_helpers::get_date_time_unix_nano().to_string(),
                 ["quit"] => {
                     out.line("bye");
                     out.flush();
